@@ -14,7 +14,7 @@ PL_EXPR = "prqlc/prqlc/src/ir/pl/expr.rs"
 LR = "prqlc/prqlc-parser/src/lexer/lr.rs"
 P_GENERIC = "prqlc/prqlc-parser/src/generic.rs"
 
-LABELS = ["SE1", "SE1f", "SE2", "SE2i", "SE2x", "SE3", "SE3f"]
+LABELS = ["SE1", "SE1f", "SE2", "SE2i", "SE2x", "SE2w", "SE3", "SE3f"]
 FUNCTIONS = ["static_eval_rq_operator", "static_eval_case", "maybe_static_eval"]
 RLIMIT = 120
 
@@ -88,6 +88,9 @@ pub open spec fn or3(a: Val, b: Val) -> Val {
 }
 pub open spec fn is_op(k: ExprKind, name: Seq<char>, n: int) -> bool { k is RqOperator && k->RqOperator_name@ == name && k->RqOperator_args@.len() == n }
 pub open spec fn is_case(k: ExprKind) -> bool { k is Case }
+pub open spec fn is_true_lit(k: ExprKind) -> bool { k is Literal && k->Literal_0 is Boolean && k->Literal_0->Boolean_0 }
+pub open spec fn case_ok(k: ExprKind) -> bool { k is Case ==> (k->Case_0@.len() >= 1 && !(k->Case_0@.len() == 1 && is_true_lit(k->Case_0@[0].condition.kind))) }
+pub open spec fn values_ok(s: Seq<SwitchCase>) -> bool { forall|i: int| 0 <= i < s.len() ==> case_ok(#[trigger] s[i].value.kind) }
 pub open spec fn arg(k: ExprKind, i: int) -> Expr { k->RqOperator_args@[i] }
 pub open spec fn lit_of(e: Expr) -> Literal { e.kind->Literal_0 }
 
@@ -194,6 +197,7 @@ def build(X):
     ro.insert_at_body_start("proof { oracle_semantics(); }", "oracle equations brought into scope")
 
     ca = X.fn(STATIC_EVAL, "static_eval_case").pub_all()
+    ca.inline_local_callees(X, STATIC_EVAL, exclude=("static_eval_case", "static_eval_rq_operator"))
     ca.rewrite_re("R5", r"\bExpr::new\(", "expr_new_lit(", count=None, why="Expr::new(<literal>)")
     ca.ret_name("r")
     ca.contract("""
@@ -202,6 +206,10 @@ def build(X):
             is_case(r.kind) || !(r.kind is Case),
             // C02: `case` folding keeps the value: the first branch whose condition is TRUE, null if none
             val(r) == val(expr0), // @SE2
+            // C07: what the SQL generator relies on: a `case` that is left has a WHEN branch - it is neither empty nor a lone `true => v` (which would be emitted as
+            // `CASE ELSE v END`) - and a constant-true condition can only be its last branch (the ELSE)
+            // (the folded node can be one of the branch values, so the statement is inductive: it holds for the result if it holds for the values, which are folded first)
+            values_ok(expr0.kind->Case_0@) ==> case_ok(r.kind), // @SE2w
     """)
     ca.rewrite("R3", "fn static_eval_case(mut expr: Expr)", "fn static_eval_case(expr0: Expr)", why="`mut` parameter rebound by `let mut` (the contract names the entry value)")
     ca.insert_at_body_start("let mut expr = expr0; proof { oracle_semantics(); } let ghost kind0 = expr.kind;", "oracle equations brought into scope; ghost snapshot")
@@ -210,8 +218,10 @@ def build(X):
         invariant
             %(it)s.all() == kind0->Case_0@, 0 <= %(it)s.pos() <= %(it)s.all().len(),
             case_val(%(it)s.all()) == case_val(res@ + %(it)s.all().skip(%(it)s.pos())), // @SE2i
+            values_ok(kind0->Case_0@) ==> values_ok(res@),
         ensures
             case_val(kind0->Case_0@) == case_val(res@), // @SE2x
+            values_ok(kind0->Case_0@) ==> values_ok(res@),
         decreases %(it)s.all().len() - %(it)s.pos(),
     """ % {"it": it})
     ca.insert_in_loop(1, "proof { oracle_semantics(); lemma_case_step(res@, %(it)s.all(), %(it)s.pos() - 1); }" % {"it": it}, "", "proof hint: the three possible steps")
@@ -243,6 +253,7 @@ _CASES = [  # (PRQL expression, expected SQLite value, obligation)
     ("case [false => 1, true => 2, a > 1 => 3]", 2, "SE2"), ("case [false => 1]", None, "SE2"), ("case [a > 100 => 1, true => 2]", 2, "SE2"),
     ("case [a > 1 => 1, true => 2]", 1, "SE2"), ("case [n == 1 => 1, false => 2]", None, "SE2"), ("case [false => 1, a > 1 => 5, false => 6]", 5, "SE2"),
     ("case [true => case [false => 1, true => 4]]", 4, "SE2"),
+    ("case [false => 1, true => 2]", 2, "SE2w"), ("case [1 == 2 => a, true => n]", None, "SE2w"), ("case [false => 1, false => 2, true => a]", 7, "SE2w"),
 ]
 
 
